@@ -35,6 +35,14 @@ fn jn(ss: List[String]) -> String { ss.join(\"-\") }
 fn cat(a: List[char], b: List[char]) -> String { String.from_chars(a + b) }
 fn eqq(x: List[u64], y: List[u64]) -> bool { x == y }
 fn cc(x: List[u64], y: List[u64]) -> u64 { (x + y).len() }
+const SA: StringBuf = StringBuf.new();
+const SB: StringBuf = StringBuf.new();
+fn sp() -> u64 { SA.push_char('x'); ye(20); SA.as_string().bytes().len() }
+fn sr() -> u64 { SA.as_string().bytes().len() }
+fn se1() -> bool { SA == SB }
+fn se2() -> bool { SB == SA }
+fn sp2() -> u64 { SB.push_char('x'); ye(20); SB.as_string().bytes().len() }
+fn sr2() -> u64 { SB.as_string().bytes().len() }
 ";
 
 #[derive(Clone, Copy, Debug, PartialEq, Eq, PartialOrd, Ord)]
@@ -56,6 +64,10 @@ enum Op {
     EqBA,         // script: b == a (the same two lists, operands swapped)
     CatAB,        // script: (a + b).len()
     CatBA,        // script: (b + a).len()
+    SbPush,       // script: SA.push_char('x'); SA.as_string() length  (SA: a StringBuf constant = state shared by all callers)
+    SbRead,       // script: SA.as_string() length
+    SbEqAB,       // script: SA == SB
+    SbEqBA,       // script: SB == SA
 }
 
 const MENU_QUICK: [Op; 5] = [Op::CallT, Op::CallL, Op::GetCall, Op::CompileCall, Op::DropPkg];
@@ -63,6 +75,9 @@ const MENU_QUICK: [Op; 5] = [Op::CallT, Op::CallL, Op::GetCall, Op::CompileCall,
 const MENU_LISTS: [Op; 5] = [Op::FromChars, Op::SwapChars, Op::Join, Op::SwapStrs, Op::CatChars];
 /// operations that hold the locks of two shared lists at once, in both operand orders
 const MENU_PAIRS: [Op; 4] = [Op::EqAB, Op::EqBA, Op::CatAB, Op::CatBA];
+/// a `StringBuf` held in a script constant is interior-mutable state shared by every
+/// thread that calls into the package
+const MENU_SB: [Op; 4] = [Op::SbPush, Op::SbRead, Op::SbEqAB, Op::SbEqBA];
 const MENU_FULL: [Op; 8] = [
     Op::CallF,
     Op::CallT,
@@ -87,6 +102,12 @@ struct Handles {
     cat: TypedFunc<NoCtx, fn(List<char>, List<char>) -> RotoString>,
     eqq: TypedFunc<NoCtx, fn(List<u64>, List<u64>) -> bool>,
     cc: TypedFunc<NoCtx, fn(List<u64>, List<u64>) -> u64>,
+    sp: TypedFunc<NoCtx, fn() -> u64>,
+    sr: TypedFunc<NoCtx, fn() -> u64>,
+    se1: TypedFunc<NoCtx, fn() -> bool>,
+    se2: TypedFunc<NoCtx, fn() -> bool>,
+    sp2: TypedFunc<NoCtx, fn() -> u64>,
+    sr2: TypedFunc<NoCtx, fn() -> u64>,
 }
 
 #[derive(Clone)]
@@ -96,6 +117,9 @@ struct Lists {
     nums2: List<u64>,
     chars: List<char>,
     strs: List<RotoString>,
+    /// pushes onto the shared StringBuf constant that were started / have returned
+    sb_started: Arc<std::sync::atomic::AtomicU64>,
+    sb_done: Arc<std::sync::atomic::AtomicU64>,
 }
 
 /// Address of the shared allocation of a list (`List<T>` is `repr(transparent)`
@@ -103,6 +127,35 @@ struct Lists {
 fn list_addr(l: &List<u64>) -> usize {
     // SAFETY: reads one word of a live value
     unsafe { *(l as *const List<u64> as *const usize) }
+}
+
+static CAPTURED: Mutex<Vec<usize>> = Mutex::new(Vec::new());
+
+fn capture_sink(ev: &roto::verif::Event) {
+    if let roto::verif::Event::MutexLock { mutex, .. } = ev {
+        CAPTURED.lock().unwrap().push(*mutex);
+    }
+}
+
+/// The two StringBuf constants of a fresh package are compared with their locks taken in
+/// address order, and the addresses differ from compile to compile. To keep the lock
+/// order the same in every execution, the buffer that gets the pushes ("A") is always
+/// the one with the LOWER address: the addresses are read off the lock events of two
+/// reads on the main thread, and the roles are swapped if needed.
+fn normalise_stringbuf_roles(h: &mut Handles) {
+    CAPTURED.lock().unwrap().clear();
+    roto::verif::set_sink(Some(capture_sink));
+    let _ = h.sr.call();
+    let _ = h.sr2.call();
+    roto::verif::set_sink(None);
+    let seen = CAPTURED.lock().unwrap().clone();
+    if let [a, b] = seen[..] {
+        if a > b {
+            std::mem::swap(&mut h.sp, &mut h.sp2);
+            std::mem::swap(&mut h.sr, &mut h.sr2);
+            std::mem::swap(&mut h.se1, &mut h.se2);
+        }
+    }
 }
 
 fn runtime() -> Runtime<NoCtx> {
@@ -129,6 +182,12 @@ fn handles(pkg: &mut Package<NoCtx>) -> Result<Handles, String> {
         cat: pkg.get_function("cat").map_err(|e| e.to_string())?,
         eqq: pkg.get_function("eqq").map_err(|e| e.to_string())?,
         cc: pkg.get_function("cc").map_err(|e| e.to_string())?,
+        sp: pkg.get_function("sp").map_err(|e| e.to_string())?,
+        sr: pkg.get_function("sr").map_err(|e| e.to_string())?,
+        se1: pkg.get_function("se1").map_err(|e| e.to_string())?,
+        se2: pkg.get_function("se2").map_err(|e| e.to_string())?,
+        sp2: pkg.get_function("sp2").map_err(|e| e.to_string())?,
+        sr2: pkg.get_function("sr2").map_err(|e| e.to_string())?,
     })
 }
 
@@ -234,6 +293,38 @@ fn run_op(
                 return Err("two lists that were never equal compared equal".into());
             }
         }
+        // the shared buffer holds one 'x' per completed push: a read sees at least the
+        // pushes that had returned before it began and at most those that had begun
+        Op::SbPush => {
+            use std::sync::atomic::Ordering::SeqCst;
+            let lo = lists.sb_done.load(SeqCst) + 1;
+            lists.sb_started.fetch_add(1, SeqCst);
+            let got = h.sp.call();
+            let hi = lists.sb_started.load(SeqCst);
+            lists.sb_done.fetch_add(1, SeqCst);
+            if got < lo || got > hi {
+                return Err(format!("push then as_string: length {got}, expected {lo}..={hi} (own push included)"));
+            }
+        }
+        Op::SbRead => {
+            use std::sync::atomic::Ordering::SeqCst;
+            let lo = lists.sb_done.load(SeqCst);
+            let got = h.sr.call();
+            let hi = lists.sb_started.load(SeqCst);
+            if got < lo || got > hi {
+                return Err(format!("as_string: length {got}, expected {lo}..={hi}"));
+            }
+        }
+        Op::SbEqAB | Op::SbEqBA => {
+            use std::sync::atomic::Ordering::SeqCst;
+            let done_before = lists.sb_done.load(SeqCst);
+            let got = if op == Op::SbEqAB { h.se1.call() } else { h.se2.call() };
+            let started_after = lists.sb_started.load(SeqCst);
+            // SB stays empty: equal exactly as long as nothing was pushed onto SA
+            if (done_before > 0 && got) || (started_after == 0 && !got) {
+                return Err(format!("SA == SB gave {got} with {done_before} pushes done before and {started_after} started after"));
+            }
+        }
         Op::CatAB | Op::CatBA => {
             let (a, b) = if op == Op::CatAB { (&lists.nums, &lists.nums2) } else { (&lists.nums2, &lists.nums) };
             let got = h.cc.call(a.clone(), b.clone());
@@ -255,6 +346,8 @@ fn shapes(tier: Tier) -> Vec<(usize, usize, &'static [Op], usize)> {
             (2, 2, &MENU_LISTS[..], 2),
             (2, 1, &MENU_PAIRS[..], usize::MAX),
             (2, 2, &MENU_PAIRS[..], 2),
+            (2, 1, &MENU_SB[..], usize::MAX),
+            (2, 2, &MENU_SB[..], 2),
         ],
         Tier::Thorough => vec![
             (2, 1, &MENU_FULL[..], usize::MAX),
@@ -265,6 +358,8 @@ fn shapes(tier: Tier) -> Vec<(usize, usize, &'static [Op], usize)> {
             (3, 1, &MENU_LISTS[..], usize::MAX),
             (2, 2, &MENU_PAIRS[..], usize::MAX),
             (3, 1, &MENU_PAIRS[..], usize::MAX),
+            (2, 2, &MENU_SB[..], usize::MAX),
+            (3, 1, &MENU_SB[..], usize::MAX),
         ],
     }
 }
@@ -339,7 +434,9 @@ fn run_program(p: &Program, bound: usize) -> (u64, u64, Vec<Failure>, usize) {
     // program — except when the program drops it (DropPkg): then every
     // execution gets a fresh one.
     let rt0 = Arc::new(runtime());
-    let drops_pkg = p.iter().flatten().any(|o| *o == Op::DropPkg);
+    // script constants are state (and a deadlocked execution leaves their locks held): programs
+    // that touch them get a fresh package per execution too
+    let drops_pkg = p.iter().flatten().any(|o| matches!(o, Op::DropPkg | Op::SbPush | Op::SbRead | Op::SbEqAB | Op::SbEqBA));
     host::ledger_reset();
     let shared_handles: Option<Handles> = if drops_pkg {
         None
@@ -360,7 +457,8 @@ fn run_program(p: &Program, bound: usize) -> (u64, u64, Vec<Failure>, usize) {
                 Some(h) => (h.clone(), Arc::new(Mutex::new(None))),
                 None => {
                     let mut pkg = host::compile(&rt, SCRIPT).expect("script compiles");
-                    let h = handles(&mut pkg).expect("handles");
+                    let mut h = handles(&mut pkg).expect("handles");
+                    normalise_stringbuf_roles(&mut h);
                     (h, Arc::new(Mutex::new(Some(pkg))))
                 }
             };
@@ -375,6 +473,8 @@ fn run_program(p: &Program, bound: usize) -> (u64, u64, Vec<Failure>, usize) {
                 nums2: list2,
                 chars: List::from(vec!['x', 'a', 'y']),
                 strs: List::from(vec![RotoString::from("x"), RotoString::from("a"), RotoString::from("y")]),
+                sb_started: Default::default(),
+                sb_done: Default::default(),
             };
             let errors = Arc::new(Mutex::new(Vec::<String>::new()));
             let pushes: Vec<u64> = p
